@@ -10,7 +10,7 @@ from sx import Sym
 
 RULE = ("seeded interleavings (length<=14) over 2-4 instances of each item-holding block class (OpticalSetupBlock, "
         "TemporalEventsData, EMG, Data3D, ForceTorque3D, ForcePlatformsCalibrationDataBlock, ForcePlatformsDataBlock): construct "
-        "without items, construct with an own item list (where the constructor takes one), decode the same bytes again (from two streams, or from ONE stream rewound in between), add an "
+        "without items, construct with an own item list (where the constructor takes one), copy.deepcopy / pickle round trip of an instance, decode the same bytes again (from two streams, or from ONE stream rewound in between), add an "
         "item, remove an item, edit an item in place (a sample, a label, an index), assign one block's item list (the list its getter returns, "
         "a tuple of its items, or ONE list object given to two blocks) through the list setters of Data3D / ForceTorque3D / ForcePlatformsDataBlock, encode; items have 2 frames, in one run of eight "
         "1023/1024/1025/4096 frames (wholly missing, wholly present, with gaps); after every step the items (by identity) and the encoding of EVERY instance are compared "
@@ -200,6 +200,8 @@ def random_action(rng, n_insts):
     r = rng.random()
     if r < 0.16 or n_insts < 2:
         return ("construct", None if rng.random() < 0.55 else rng.randrange(0, 3))
+    if r < 0.19:
+        return ("clone", rng.randrange(n_insts), rng.choice(["deepcopy", "pickle"]))
     if r < 0.215:
         return ("provoke",)
     if r < 0.25:
@@ -279,6 +281,17 @@ def one_run(ctx, kind, rng, plan=None, steps=0):
                 k = act[2] if act[2] is not None else rng.randrange(len(its))
                 edit_item(kind, its[k], rng)
                 ops.append([Sym("edit"), i, k])
+            elif act[0] == "clone":
+                # copy.deepcopy / a pickle round trip of an instance: a new instance with items of its own
+                import copy
+                import pickle
+                src = act[1]
+                dup = copy.deepcopy(insts[src]) if act[2] == "deepcopy" else pickle.loads(pickle.dumps(insts[src]))
+                if any(id(o) in ids for o in items_of(kind, dup)):
+                    ctx.fail(f"{kind}: {act[2]} of a block handed out item objects that another instance holds", dict(kind=kind, ops=[str(o) for o in ops]), ident=f"{kind} {act[2]} shares items")
+                    return None
+                insts.append(dup)
+                ops.append([Sym("construct"), [reg(o) for o in items_of(kind, dup)]])
             elif act[0] == "provoke":
                 import blockrun as B
                 B.provoke(rng, kinds=[kind])                  # an encode / decode / constructor call of this class fails (and is caught)
